@@ -4,7 +4,7 @@ import importlib
 MODULES = ["jobs_coeffs", "jobs_vec", "jobs_rot", "jobs_conv", "jobs_q120", "jobs_reim4", "jobs_static"]
 
 CLAIMED = ["C04", "C05", "C07", "C08", "C09", "C10", "C12", "C13", "C14", "C15", "C17", "C11", "C18"]
-LEVEL = {"C12": "other", "C15": "other"}
+LEVEL = {"C12": "other"}
 EXPLAIN = {
     "C12": "Contracts cannot quantify over schedules. Decided here: the PREMISES of the standard non-interference argument. (1) proof: in the "
            "contract runs tagged C12 the MODULE and all tables are is_fresh objects outside every assigns clause, so no module-level function "
@@ -12,11 +12,16 @@ EXPLAIN = {
            "objects with static storage are the documented *_simple caches, and no module-level / table-based entry point reaches a function that "
            "touches one. The step from these premises to 'no data race, same result as when run alone' is the usual paper argument and is NOT "
            "mechanised; no thread interleaving is explored.",
-    "C15": "Decided here: (1) proof (runs of C05/C08/C09/C14/C17 tagged C15): outputs are determined by the inputs alone -- output and scratch objects "
-           "start nondeterministic and unaligned and the post fixes every output cell as a function of the inputs; (2) static facts: inventory of "
-           "static-lifetime state (same tool as C12) and the cache-key table of the *_simple functions (static_allow.json, derived by reading the "
-           "code; the set of caches itself is checked mechanically). Not decided: bit-identical repeatability of the float FFT/NTT pipelines, "
-           "arbitrary call histories (no sequence is enumerated), alignment effects inside assembly kernels.",
+    "C15": "Decided here: (1) proof, cache.* runs: for 16 of the 20 *_simple convenience functions the table cache (function-local statics of the "
+           "REAL function, reached by asm-label aliases with the repository source included in the harness translation unit) is proved to keep the "
+           "representation invariant 'every slot is empty or holds exactly what the real init function builds for the slot's key', and from ANY cache "
+           "state satisfying it one call with any arguments hands the kernel a table equal field for field to a freshly built one -- an induction over "
+           "call histories, no sequence is enumerated; (2) proof (runs of C05/C08/C09/C14/C17 tagged C15): outputs are determined by the inputs alone -- "
+           "output and scratch objects start nondeterministic and unaligned and the post fixes every output cell as a function of the inputs; (3) static "
+           "facts: inventory of static-lifetime state (same tool as C12): the *_simple caches are the only mutable statics and no module-level entry "
+           "point reaches one. Not decided: bit-identical repeatability of the float FFT/NTT pipelines, cplx_to_tnx32_simple (its slot type is local to "
+           "the function and cannot be aliased; cache-key table only), the three reim_*32_simple functions whose kernels are NOT_IMPLEMENTED, alignment "
+           "effects inside assembly kernels.",
 }
 
 _cache = None
@@ -68,6 +73,11 @@ def trusted_base(prop, results, waived):
 
 
 def assumptions(prop):
-    return ["ghost index G / (G_limb,G_coef) nondeterministic => statement holds for every index (no quantifier used)",
+    extra = []
+    if prop in ("C15", "C12"):
+        extra = ["cache.* runs: the kernels behind ->function are not executed (bodies removed; what a kernel computes from a given table is C14/C17's subject)",
+                 "cache.* pointer-array caches: the constructors new_*_precomp are replaced by an assumed contract (fresh table object for dimension m, deterministic in m)",
+                 "cache.* runs: the CPU feature bits are fixed per process (one nondeterministic bit per feature for the whole run)"]
+    return extra + ["ghost index G / (G_limb,G_coef) nondeterministic => statement holds for every index (no quantifier used)",
             "S3 obligations are bounded in the number of limbs (box stated per job) and unbounded in N and data",
             "S4 obligations are bounded stand-ins and are never counted in discharged"]
